@@ -2,8 +2,9 @@
 (***************************************************************************)
 (* I-layer for C07: the rewriters shipped in monkeytype/typing.py,         *)
 (* transcribed, including GenericTypeRewriter.rewrite's dispatch by type   *)
-(* NAME (it descends into Dict, List, Set, Tuple, Generator, Union and     *)
-(* TypedDict, and NOT into DefaultDict, Type, Iterator, Callable).         *)
+(* NAME (it descends into Dict, List, Set, Tuple, Generator, Iterator,     *)
+(* DefaultDict, Union and TypedDict, and NOT into Type or Callable;        *)
+(* Iterator and DefaultDict since fix d4a0820).                            *)
 (*                                                                         *)
 (* Union member order is not representable here, so a rewriter whose       *)
 (* result depends on which member comes first (RewriteLargeUnion) yields a *)
@@ -55,7 +56,7 @@ RebuildTD(rw, t) ==
   {IF AnyErr({g.a[1] : g \in c}) THEN FirstErr({g.a[1] : g \in c}) ELSE TTD(c)
    : c \in ProdSets([i \in 1..Len(fs) |-> {Mk(fs[i].k, fs[i].n, <<x>>, {}) : x \in RW(rw, fs[i].a[1])}])}
 
-DescendKinds == {"dict", "list", "set", "tuple", "tuplevar", "generator"}
+DescendKinds == {"dict", "list", "set", "tuple", "tuplevar", "generator", "iterator", "ddict"}
 
 \* ---- RemoveEmptyContainers ----------------------------------------------------------
 HasArgsAllAny(t) == Len(t.a) > 0 /\ \A i \in 1..Len(t.a) : t.a[i].k = "any"
